@@ -88,8 +88,14 @@ def gen_instance(rng, maxn=6, maxT=5, G=3, family=None):
                 path.append((y, x))
             else:
                 path.append((rng.randint(-2, 4 * G + 2) / 4.0, rng.randint(-2, 4 * G + 2) / 4.0))
+    linked = []
+    if family in ('street', 'random') and len(edges) >= 4 and rng.random() < 0.25:
+        # linked ("parallel") edges, as connect_parallelroads would produce them: pairs of edges without a common node
+        cand = [(e, f) for e in edges for f in edges if len({e[0], e[1], f[0], f[1]}) == 4]
+        for e, f in rng.sample(cand, min(len(cand), rng.randint(1, 3))):
+            linked.append([list(e), list(f)])
     return {'nodes': nodes, 'coord': {k: list(v) for k, v in coord.items()}, 'edges': [list(e) for e in edges],
-            'path': [list(p) for p in path], 'family': family, 'G': G}
+            'path': [list(p) for p in path], 'family': family, 'G': G, 'linked': linked}
 
 
 def gen_config(rng, allow=('ne', 'W', 'nodes', 'cuts', 'goback'), cls=None):
@@ -179,7 +185,12 @@ def build_map(inst, conc, d=None):
         adj = {n: sorted(v) for n, v in adj.items()}
     latlon = conc.latlon is not None
     if conc.backend == 'inmem':
-        m = InMemMap('g', use_latlon=latlon, use_rtree=False, index_edges=False)
+        le = None
+        if inst.get('linked'):
+            le = {}
+            for e, f in inst['linked']:
+                le.setdefault((conc.lab(e[0]), conc.lab(e[1])), set()).add((conc.lab(f[0]), conc.lab(f[1])))
+        m = InMemMap('g', use_latlon=latlon, use_rtree=False, index_edges=False, linked_edges=le)
         for n in nodes:
             m.add_node(conc.lab(n), conc.loc(inst['coord'][n] if n in inst['coord'] else inst['coord'][str(n)]))
         for n in nodes:
@@ -341,8 +352,17 @@ def graph_tables(inst, selfnbr=True):
     if selfnbr:
         for n in adj:
             adj[n].append(n)         # InMemMap lists every node as its own neighbour
-    return {'nodes': list(inst['nodes']), 'nbrs': [[n, adj[n]] for n in inst['nodes']], 'tab': [],
-            'tr': {'move': 0, 'moveNE': 0, 'back': 0}, 'T': len(inst['path']), 'hasTT': False, 'tt': []}
+    T = len(inst['path'])
+    rows = []
+    if inst.get('linked'):          # rows only carry the linked-edge lists (no weights: table-free clauses)
+        lk = {}
+        for e, f in inst['linked']:
+            lk.setdefault(tuple(e), []).append(list(f))
+        for a, b in inst['edges']:
+            rows.append({'st': [a, b], 'dE': [0] * T, 'lE': [0] * T, 'dN': [0] * T, 'lN': [0] * T, 'ti': [1] * T,
+                         'skip': [False] * T, 'linked': lk.get((a, b), [])})
+    return {'nodes': list(inst['nodes']), 'nbrs': [[n, adj[n]] for n in inst['nodes']], 'tab': rows,
+            'tr': {'move': 0, 'moveNE': 0, 'back': 0}, 'T': T, 'hasTT': False, 'tt': []}
 
 
 def spec_cf(cf):
